@@ -164,10 +164,16 @@ def State.next (s : State) : Side → State
 
 /-! ## RFC 8446 §7.1 HkdfLabel (independent reference for the label constants) -/
 
-/-- `struct { uint16 length; opaque label<7..255> = "tls13 " + Label; opaque context<0..255> = ""; }` -/
-def hkdfLabel (length : Nat) (label : String) : List Nat :=
-  let full := ("tls13 " ++ label).toList.map Char.toNat
+/-- `struct { uint16 length; opaque label<7..255> = "tls13 " + Label; opaque context<0..255> = ""; }`
+    (labels are character lists so that the kernel can evaluate the encoding) -/
+def hkdfLabel (length : Nat) (label : List Char) : List Nat :=
+  let full := (['t', 'l', 's', '1', '3', ' '] ++ label).map Char.toNat
   [length / 256 % 256, length % 256, full.length] ++ full ++ [0]
+
+def quicKey : List Char := ['q', 'u', 'i', 'c', ' ', 'k', 'e', 'y']
+def quicIv : List Char := ['q', 'u', 'i', 'c', ' ', 'i', 'v']
+def quicHp : List Char := ['q', 'u', 'i', 'c', ' ', 'h', 'p']
+def quicKu : List Char := ['q', 'u', 'i', 'c', ' ', 'k', 'u']
 
 /-- RFC 9001 §5.1 / §5.4.1 / §6.1 and RFC 8446 B.4: per cipher suite (hash output length, AEAD key length) -/
 def suiteParams : String → Option (Nat × Nat)
@@ -177,10 +183,10 @@ def suiteParams : String → Option (Nat × Nat)
   | _ => none
 
 /-- the four HkdfLabels a suite must use: "quic key" (key length), "quic iv" (12), "quic hp" (key length),
-    "quic ku" (hash length) -/
+    "quic ku" (hash length: the next secret is as long as the current one) -/
 def rfcLabels (suite : String) : Option (List Nat × List Nat × List Nat × List Nat) :=
   match suiteParams suite with
-  | some (h, k) => some (hkdfLabel k "quic key", hkdfLabel 12 "quic iv", hkdfLabel k "quic hp", hkdfLabel h "quic ku")
+  | some (h, k) => some (hkdfLabel k quicKey, hkdfLabel 12 quicIv, hkdfLabel k quicHp, hkdfLabel h quicKu)
   | none => none
 
 end Quic.Conn.KeyChain
